@@ -133,3 +133,12 @@ Fixpoint err_holds_nothing (st : list tstat) (res : list tres) : bool :=
        end) && err_holds_nothing st' res'
   | _, _ => true
   end.
+
+(* outer-cancel lock, "an acquisition that reports an error holds nothing": every registration of
+   the lock (an entry of rcancels, counted in the WaitGroup a writer waits for) belongs to a reader
+   whose RLock returned nil and that has not released - so there are at most as many as there are
+   such readers.  (While the lock runs; after shutdown the leftovers are cancelled by Run.) *)
+Definition is_reader (s : tstat) : bool := match s with THoldR _ | TTold _ => true | _ => false end.
+
+Definition owned_entries_obs (st : list tstat) (entries : Z) : bool :=
+  (entries <=? Z.of_nat (count is_reader st))%Z.
